@@ -72,6 +72,47 @@ def _data_globals(include_seams=False):
     return out
 
 
+_MUTABLE = (dict, list, set, bytearray, np.ndarray)
+
+
+def _functions_with_mutable_defaults():
+    """Functions of the emd package whose default-argument objects are mutable containers: such an object lives in
+    the process that defined it, so a forked worker owns a copy (and a fresh interpreter the pristine value)."""
+    seen, out = set(), []
+
+    def visit(f):
+        hops = 0
+        while f is not None and hops < 8:
+            if isinstance(f, types.FunctionType) and id(f) not in seen:
+                seen.add(id(f))
+                ds = list(f.__defaults__ or ()) + list((f.__kwdefaults__ or {}).values())
+                if any(isinstance(d, _MUTABLE) for d in ds) and (f.__module__ or '').startswith('emd'):
+                    out.append(f)
+            f = getattr(f, '__wrapped__', None)
+            hops += 1
+
+    for m in _emd_modules():
+        for k, v in list(vars(m).items()):
+            visit(v)
+            if isinstance(v, type) and (getattr(v, '__module__', '') or '').startswith('emd'):
+                for kk, vv in list(vars(v).items()):
+                    visit(getattr(vv, '__func__', vv))
+    return out
+
+
+def _capture_defaults(deep):
+    out = []
+    for f in _functions_with_mutable_defaults():
+        d, kd = f.__defaults__, f.__kwdefaults__
+        if deep:
+            try:
+                d, kd = copy.deepcopy(d), copy.deepcopy(kd)
+            except Exception:
+                continue
+        out.append((f, d, kd))
+    return out
+
+
 def _logging_state():
     st = {'disable': logging.root.manager.disable, 'loggers': {}, 'handlers': []}
     for name in sorted(logging.root.manager.loggerDict):
@@ -116,7 +157,9 @@ class ProcState:
                 except Exception:
                     continue
             globs.append((m, k, v))
-        return cls(np.random.get_state(), random.getstate(), _logging_state(), globs, dict(os.environ))
+        st = cls(np.random.get_state(), random.getstate(), _logging_state(), globs, dict(os.environ))
+        st.fdefaults = _capture_defaults(deep)
+        return st
 
     def install(self):
         np.random.set_state(self.np_state)
@@ -124,6 +167,9 @@ class ProcState:
         _restore_logging(self.log_state)
         for m, k, v in self.globs:
             setattr(m, k, v)
+        for f, d, kd in getattr(self, 'fdefaults', ()):
+            f.__defaults__ = d
+            f.__kwdefaults__ = kd
         if self.environ is not None and dict(os.environ) != self.environ:
             for k in list(os.environ):
                 if k not in self.environ:
@@ -279,6 +325,7 @@ class SimPool:
             st = ProcState.capture(deep=True)
             st.globs = [(m, k, copy.deepcopy(v)) for (m, k, v) in _PRISTINE_GLOBALS
                         if _try_deepcopy(v)]
+            st.fdefaults = [(f, copy.deepcopy(d), copy.deepcopy(kd)) for f, d, kd in _PRISTINE_DEFAULTS]
             st.np_state = _np_state_from_seed(w.entropy(32))
             st.py_state = random.Random(w.entropy(64)).getstate()
             st.log_state = _PRISTINE_LOGGING[0] or st.log_state
@@ -654,8 +701,13 @@ _PRISTINE_GLOBALS = []
 _PRISTINE_LOGGING = [None]
 
 
+_PRISTINE_DEFAULTS = []
+
+
 def remember_pristine():
     """Called once right after importing emd: what a spawned interpreter would start from."""
+    del _PRISTINE_DEFAULTS[:]
+    _PRISTINE_DEFAULTS.extend(_capture_defaults(True))
     del _PRISTINE_GLOBALS[:]
     for m, k, v in _data_globals():
         try:
@@ -670,6 +722,11 @@ def reset_globals_to_pristine():
     for m, k, v in _PRISTINE_GLOBALS:
         try:
             setattr(m, k, copy.deepcopy(v))
+        except Exception:
+            pass
+    for f, d, kd in _PRISTINE_DEFAULTS:
+        try:
+            f.__defaults__, f.__kwdefaults__ = copy.deepcopy(d), copy.deepcopy(kd)
         except Exception:
             pass
     # memoised functions (functools.lru_cache / cache) keep state across calls: start every run cold
